@@ -15,6 +15,7 @@ Require Import Cirbo.Model.Eval Cirbo.Model.Sem.
 Require Import Cirbo.Proofs.RebuildFacts Cirbo.Proofs.EffectRR Cirbo.Proofs.Pipeline Cirbo.Proofs.EffectMD
                Cirbo.Proofs.EffectMU Cirbo.Proofs.TruthTableFacts Cirbo.Proofs.EffectME Cirbo.Proofs.C18Examples.
 Require Import Cirbo.Generated.PassesGen Cirbo.Generated.PipelineGen Cirbo.Proofs.PassesGen Cirbo.Proofs.PipelineGen.
+Require Import Cirbo.Generated.TransformerGen Cirbo.Proofs.TransformerGen.
 
 (* ================= A. pipeline algebra ================= *)
 (* dropping an idempotent pass that equals its predecessor never changes the result: applying a list
@@ -248,3 +249,41 @@ Proof.
         (conj (proj1 (proj2 (proj2 (proj2 (proj2 (proj2 (proj2 passes_regenerated)))))))
               pipeline_regenerated)))).
 Qed.
+
+(* the dispatching methods of core/circuit/transformer.py - linearize_transformers, as_distinct (both classes),
+   apply_transformers, transform, TransformerComposition._transform, the three __eq__ (Transformer,
+   RemoveRedundantGates, TransformerComposition), __or__ / __ror__ - are regenerated as well (translator T24,
+   Generated/TransformerGen.v): dynamic dispatch on `self` is a match on the constructor with one arm per class body,
+   generators are run to completion, the mutual recursion through the class hierarchy is a mutual Fixpoint on explicit
+   fuel (`gen_f` = `gen_f_fuel` at a default fuel; the results are proved independent of the fuel above a bound),
+   functools.reduce is a monadic fold, `return NotImplemented` is None.  They equal the hand model for EVERY
+   transformer term and circuit.  The NotImplemented protocol is modelled between transformer objects only
+   (`other` ranges over Passes.transformer, not over arbitrary Python objects). *)
+Theorem C18_pipeline_machinery_regenerated :
+  (* as_distinct (Transformer's and TransformerComposition's, imply_deps True / False) and linearize_transformers,
+     with the default fuel and with every fuel above a bound *)
+  (forall t, gen_as_distinct t true = Ok (as_distinct t)) /\
+  (forall t, gen_as_distinct t false = Ok (match t with TComp _ => as_distinct t | _ => [t] end)) /\
+  (forall ts, gen_linearize_transformers ts = Ok (linearize ts)) /\
+  (forall t, exists n, forall f, n <= f -> gen_as_distinct_fuel f t true = Ok (as_distinct t)) /\
+  (forall ts, exists n, forall f, n <= f -> gen_linearize_transformers_fuel f ts = Ok (linearize ts)) /\
+  (* apply_transformers(circuit, list) / (circuit, composition) / (circuit, a transformer that is not a composition:
+     TypeError, not iterable); every fuel >= 2 *)
+  (forall c ts, gen_apply_transformers c (inl ts) = apply_transformers c ts) /\
+  (forall f c ts, gen_apply_transformers_fuel (S (S f)) c (inl ts) = apply_transformers c ts) /\
+  (forall f c ts, gen_apply_transformers_fuel (S (S f)) c (inr (TComp ts)) = apply_transformers c [TComp ts]) /\
+  (forall f c t, (forall l, t <> TComp l) -> gen_apply_transformers_fuel (S f) c (inr t) = Err PyTypeError) /\
+  (* x._transform(c): the four passes (T15) for a leaf, TransformerComposition._transform for a composition;
+     x.transform(c) *)
+  (forall f t c, (forall l, t <> TComp l) -> gen__transform_fuel (S f) t c = transform_leaf t c) /\
+  (forall f c ts, gen__transform_fuel (S (S (S f))) (TComp ts) c = apply_transformers c [TComp ts]) /\
+  (forall t c, gen_transform t c = transform t c) /\
+  (* `a == b`: Transformer.__eq__, RemoveRedundantGates.__eq__, TransformerComposition.__eq__ and the NotImplemented
+     protocol (the reflected call always answers: the identity fallback is never reached) *)
+  (forall a b, gen_py_eq a b = transformer_eqb a b) /\
+  (forall a b, gen___eq__ a b = None -> gen___eq__ b a <> None) /\
+  (* `a | b`: __or__ answers between transformers; __ror__ (never reached between transformers) is its mirror image *)
+  (forall a b, gen___or__ a b = Ok (Some (pipe a b))) /\
+  (forall a b, gen___ror__ b a = Ok (Some (TComp (match a with TComp l => l | _ => [a] end ++ as_distinct b)))) /\
+  (forall a b, gen_py_or a b = Ok (Some (pipe a b))).
+Proof. exact transformer_regenerated. Qed.
